@@ -146,6 +146,7 @@ theorem apply0_hist_frame (w : World) (l : Label) (b : BId) (h : writesHist l = 
   case wiCancel => simp [apply0]
   case expectTimeout x' => simp only [apply0]; split <;> simp
   case expectCancelReq x' => simp only [apply0]; split <;> simp
+  case hSkip p_ b_ e_ k_ => simp only [apply0]; split <;> simp
   case stopBegin x b' c => by_cases hb : b = b' <;> simp [apply0, hb, setBus_bus]
   case stopNoop => simp [apply0]
   case rlExit b' =>
